@@ -12,8 +12,8 @@
 (***************************************************************************)
 EXTENDS Integers, Sequences, TLC, Json
 
-Sels     == {"cols", "aliases", "aggs", "aggs2", "index", "longitem"}      \* index: chained subscripts / map keys / nested paths as select items
-Wheres   == {"none", "cmp", "kwlit", "andor", "long"}      \* long: a conjunction of 45 comparisons (far more than 100 tokens)
+Sels     == {"cols", "aliases", "aggs", "aggs2", "index", "longitem", "indexkw"}      \* indexkw: path segments spelled like keywords after a subscript (rows[0].limit)      \* index: chained subscripts / map keys / nested paths as select items
+Wheres   == {"none", "cmp", "kwlit", "andor", "long", "pathkw"}      \* long: a conjunction of 45 comparisons (far more than 100 tokens)
 Windows  == {"none", "tumbling", "sliding", "counting", "session", "global"}
 Havings  == {"none", "alias", "agg"}
 Withs    == {"none", "ts", "tsmoo", "uss", "us_s", "uus", "umi", "uhh"}      \* u*: the other TIMEUNIT names (ss, s, us, mi, hh)
@@ -30,7 +30,7 @@ WellFormed ==
   /\ (having # "none" => Agg(sel))
   /\ (with # "none" => win \in {"tumbling", "sliding", "session"})
   /\ (order # "none" => Agg(sel))
-  /\ (join # "none" => sel \in {"cols", "aliases", "index"})
+  /\ (join # "none" => sel \in {"cols", "aliases", "index", "indexkw"})
   /\ (sel = "longitem" => join = "none" /\ ~distinct)          \* longitem: one select item of far more than 100 tokens (a CASE with 24 branches)
   /\ (distinct => sel # "aggs2")
   /\ (win = "global" => having = "none" /\ order = "none")
